@@ -72,6 +72,7 @@ func main() {
 		}
 		dir := filepath.Join(*scratch, "replay")
 		res := e.Execute(rf.Plan, dir)
+		sim.ReapChildren()
 		os.RemoveAll(dir)
 		if *minimise != "" {
 			if res.Viol == nil || res.Viol.Key() != (&sim.Violation{Property: rf.Property, Oracle: rf.Oracle, Signature: rf.Signature}).Key() {
@@ -125,6 +126,7 @@ func main() {
 		dir := filepath.Join(*scratch, fmt.Sprintf("run%d", run))
 		t0 := time.Now()
 		res := e.Execute(plan, dir)
+		sim.ReapChildren()
 		os.RemoveAll(dir)
 		res.Seed, res.Run = *seed, run
 		ol := outLine{RunResult: res, WallMS: time.Since(t0).Milliseconds()}
